@@ -93,8 +93,58 @@ def fix_refs(spec):
 
 
 @st.composite
-def wild_case(draw, max_len=24, nprobes=4):
-    spec = fix_refs(draw(wild_spec()))
+def attach_spec(draw):
+    """Attachment stress: a tiny alphabet and 2..4 positioning passes whose rules do little else than attach body items to
+    other body items -- stars (several children of one parent), chains, re-attachment of a slot that already has a parent
+    (first / middle / last child), attachment to an own descendant or to itself (the engine must refuse), and, in a
+    substitution pass placed first, deletions and insertions so that later passes meet fresh slots."""
+    spec = draw(gdlgen.c06_spec(max_glyphs=4, max_passes=2))
+    n = len(spec['glyphs'])
+    single = lambda g: g - 1                      # c06_spec: classes[g-1] == [g]
+    anycls = len(spec['classes'])
+    spec['classes'].append(list(range(1, n)))
+    passes = spec['passes'][:spec['nsubst']][:1]
+    spec['nsubst'] = len(passes)
+    for pi in range(draw(st.integers(2, 4))):
+        rules = []
+        for _ in range(draw(st.integers(1, 3))):
+            shape = draw(st.integers(0, 3))
+            blen = draw(st.integers(2, 5))
+            if shape == 0:
+                # star: x y y y -> every y attached to x (or to the last item)
+                x, y = draw(st.integers(1, n - 1)), draw(st.integers(1, n - 1))
+                items = [single(x)] + [single(y)] * (blen - 1)
+                if draw(st.booleans()):
+                    items = items[::-1]; tgt = blen - 1
+                else:
+                    tgt = 0
+                att = {bi: tgt for bi in range(blen) if bi != tgt}
+            else:
+                items = [draw(st.sampled_from([single(draw(st.integers(1, n - 1))), anycls])) for _ in range(blen)]
+                att = {}
+                for bi in draw(st.lists(st.integers(0, blen - 1), min_size=1, max_size=3, unique=True)):
+                    att[bi] = draw(st.integers(0, blen - 1))            # may be bi itself: refused by the engine
+            actions = []
+            for bi in range(blen):
+                it = dict(op='keep', attrs=[])
+                if bi in att:
+                    it['attrs'].append(['attach', att[bi], None])
+                    if draw(st.booleans()):
+                        it['attrs'] += [['attx', 0, ['lit', draw(st.integers(0, 50)) * 10]], ['atty', 0, ['lit', draw(st.integers(-30, 60)) * 10]]]
+                actions.append(it)
+            rules.append(dict(items=items, constraint=None, actions=actions, adjust=draw(st.sampled_from([0, 0, 0, -1, 1 - blen]))))
+        passes.append(dict(pre=0, maxloop=draw(st.sampled_from([2, 5, 200])), rules=rules, reverse=False))
+    spec['passes'] = passes
+    return spec
+
+
+@st.composite
+def wild_case(draw, max_len=24, nprobes=4, attach_bias=1):
+    """attach_bias: out of 8 cases, how many come from attach_spec (C04 asks for more)."""
+    if draw(st.integers(0, 7)) < attach_bias:
+        spec = draw(attach_spec())
+    else:
+        spec = fix_refs(draw(wild_spec()))
     probes = []
     for _ in range(draw(st.integers(1, nprobes))):
         pr = draw(gdlgen.probe(spec, max_len))
